@@ -229,7 +229,9 @@ Final(e) ==
             /\ lastW # NoW
             /\ \/ lastW.verdict.kind = "eof"
                \/ /\ lastW.verdict.kind = "wait" /\ lastW.verdict.side = "in"
-                  /\ closedIn[lastW.verdict.idx], "close_verdict")
+                  /\ closedIn[lastW.verdict.idx]
+               \* WaitForFunc names no stream: both runners then ask the block's eof()
+               \/ lastW.verdict.kind = "waitfunc" /\ lastW.eof, "close_verdict")
   /\ IF hdr.mode = "ref"
      THEN refOut' = out /\ refTags' = otags /\ haveRef' = TRUE
      ELSE /\ Chk((haveRef /\ ~Flag(hdr, "partial")) => out = refOut, "final_out")
